@@ -2,6 +2,7 @@ package props
 
 import (
 	"fmt"
+	"go/constant"
 	"go/token"
 	"go/types"
 	"strings"
@@ -70,6 +71,7 @@ func c06(r *core.Run) {
 
 	r.Rule("R7", "the mux path is matched as whole tokens: in Mux.GetHandler the remainder of the name after the path prefix is taken only on an edge where the byte following the prefix was compared equal to the token separator (or the lengths are equal); a bare prefix test would route 'testing.x' or 'users.1' to the service 'test' / 'user'", 1)
 	r.Rule("R9", "the matcher does not give up early: every `false` the recursive matcher returns is produced on the edge where the full-wildcard child was found absent - after the literal and the placeholder child were tried; a `return false` before that (for instance at a handler-less literal node that only exists as part of a longer pattern) hides the placeholder and wildcard patterns that match the name", 1)
+	r.Rule("R10", "registration accepts the documented token forms: analysed under the assumption that the current pattern token is exactly \"*\" (the anonymous placeholder of the Handle documentation, accepted by Pattern.IsValid) and, separately, a one-letter literal, the trie insertion reaches no panic (branches on the token's length and first byte are pruned by the assumption)", 2)
 	r.Rule("R8", "Parallel means the empty group (shared with C01.F2): registration parses the group template from Handler.Group only on the !Parallel edge, so a Parallel handler is stored with the empty group whatever its Group option says (lookup then reports an empty group for it)", 1)
 	c01ParallelGroup(r, "R8")
 
@@ -80,6 +82,7 @@ func c06(r *core.Run) {
 	}
 	c06PureLookup(r, "R6")
 	c06NoEarlyFailure(r, "R9", ro)
+	c06RegistrationAccepts(r, ro)
 	c06PrefixBoundary(r)
 	c06GroupTags(r, root, ro)
 	mn := ro.matchNode
@@ -750,7 +753,7 @@ func c06GroupTags(r *core.Run, root []*ssa.Function, ro *muxRoles) {
 	p := r.P
 	// equalTokenIndex: v is the counter of a loop that indexes a []string with it and
 	// the store at `at` is dominated by the true edge of <that element> == <string>
-	equalTokenIndex := func(v ssa.Value, at ssa.Instruction) (bool, string) {
+	equalTokenIndex := func(v ssa.Value, at ssa.Instruction, known []edgeCond) (bool, string) {
 		// a loop counter: a phi, or phi+1 (go/ssa rotates range loops)
 		var fn *ssa.Function
 		switch x := v.(type) {
@@ -793,7 +796,7 @@ func c06GroupTags(r *core.Run, root []*ssa.Function, ro *muxRoles) {
 						if !ok || bo.Op != token.EQL {
 							continue
 						}
-						for _, ed := range dominatingEdges(at) {
+						for _, ed := range known {
 							if at.Parent() == fn && ed.If.Cond == ssa.Value(bo) && ed.Succ == 0 {
 								return true, ""
 							}
@@ -834,13 +837,18 @@ func c06GroupTags(r *core.Run, root []*ssa.Function, ro *muxRoles) {
 		}
 		good, why := true, ""
 		nl := 0
-		for _, lf := range valueLeaves(v, nil, 0) {
-			if c, ok := lf.V.(*ssa.Const); ok && c.Value != nil {
-				continue // not-found sentinel of a helper
-			}
-			nl++
-			if ok, w := equalTokenIndex(lf.V, st); !ok {
-				good, why = false, w
+		// the index may be a variable set in the search loop and stored after it (not-found sentinel
+		// on the other paths): each source is judged under the edges through which it is chosen
+		for _, src := range phiSources(v) {
+			known := srcEdges(st, src)
+			for _, lf := range valueLeaves(src.V, nil, 0) {
+				if c, ok := lf.V.(*ssa.Const); ok && c.Value != nil {
+					continue // not-found sentinel
+				}
+				nl++
+				if ok, w := equalTokenIndex(lf.V, st, known); !ok {
+					good, why = false, w
+				}
 			}
 		}
 		r.Check(good && nl > 0, "R5", core.FuncName(ac.Fn), "group-tag-index=position-of-equal-token", p.InstrPos(st), "the tag is located by comparing whole tokens", "the token index stored for a group tag is not obtained by whole-token equality: "+why)
@@ -976,8 +984,15 @@ func c06PrefixBoundary(r *core.Run) {
 			}
 			n++
 			sepChecked := false
+			var facts []condFact
 			for _, ed := range dominatingEdges(sl) {
-				cnd, succ := ed.Norm()
+				facts = append(facts, edgeFacts(ed)...)
+			}
+			for _, ft := range facts {
+				cnd, succ := ft.V, 1
+				if ft.True {
+					succ = 0
+				}
 				bo, ok := cnd.(*ssa.BinOp)
 				if !ok || (bo.Op != token.EQL && bo.Op != token.NEQ) {
 					continue
@@ -1075,5 +1090,173 @@ func c06NoEarlyFailure(r *core.Run, rule string, ro *muxRoles) {
 	}
 	if n == 0 {
 		r.Bad(rule, core.FuncName(mn), "false-only-after-wildcard-child-absent", p.Pos(mn.Pos()), "the matcher has no failing return at all")
+	}
+}
+
+// c06RegistrationAccepts is C06.R10: the trie insertion (fetch) under an
+// assumption on the current token.
+func c06RegistrationAccepts(r *core.Run, ro *muxRoles) {
+	p := r.P
+	fn := ro.fetch
+	if fn == nil {
+		r.Unres("R10", "fetch", "not resolved")
+		return
+	}
+	unit := map[*ssa.Function]bool{}
+	for _, f2 := range p.Scope(fn) {
+		unit[f2] = true
+	}
+	// token values: string elements of a []string, and helper/closure parameters receiving them
+	tok := map[ssa.Value]bool{}
+	for changed := true; changed; {
+		changed = false
+		for f2 := range unit {
+			for _, b := range f2.Blocks {
+				for _, in := range b.Instrs {
+					switch x := in.(type) {
+					case *ssa.UnOp:
+						if ia, ok := x.X.(*ssa.IndexAddr); ok && x.Op == token.MUL && isStringType(x.Type()) {
+							if sl, ok := ia.X.Type().Underlying().(*types.Slice); ok && isStringType(sl.Elem()) && !tok[x] {
+								tok[x] = true
+								changed = true
+							}
+						}
+					case *ssa.Extract:
+						if nx, ok := x.Tuple.(*ssa.Next); ok && !nx.IsString && x.Index == 2 && isStringType(x.Type()) && !tok[x] {
+							tok[x] = true
+							changed = true
+						}
+					case ssa.CallInstruction:
+						cal := x.Common().StaticCallee()
+						if cal == nil || !unit[cal] {
+							continue
+						}
+						for i, a := range x.Common().Args {
+							if tok[a] && i < len(cal.Params) && !tok[cal.Params[i]] {
+								tok[cal.Params[i]] = true
+								changed = true
+							}
+						}
+					}
+				}
+			}
+		}
+	}
+	if len(tok) == 0 {
+		r.Unres("R10", core.FuncName(fn), "no pattern token value found in the trie insertion")
+		return
+	}
+	cmpInt := func(a int64, op token.Token, b int64) int8 {
+		var t bool
+		switch op {
+		case token.EQL:
+			t = a == b
+		case token.NEQ:
+			t = a != b
+		case token.LSS:
+			t = a < b
+		case token.LEQ:
+			t = a <= b
+		case token.GTR:
+			t = a > b
+		case token.GEQ:
+			t = a >= b
+		default:
+			return 0
+		}
+		if t {
+			return 1
+		}
+		return 2
+	}
+	scenario := func(text string) func(v ssa.Value) int8 {
+		var eval func(v ssa.Value) int8
+		eval = func(v ssa.Value) int8 {
+			if u, ok := v.(*ssa.UnOp); ok && u.Op == token.NOT {
+				if r := eval(u.X); r != 0 {
+					return 3 - r
+				}
+				return 0
+			}
+			bo, ok := v.(*ssa.BinOp)
+			if !ok {
+				return 0
+			}
+			// comparison of two decided conditions: (a == '$') == (n == 1)
+			if bo.Op == token.EQL || bo.Op == token.NEQ {
+				if bt, ok := bo.X.Type().Underlying().(*types.Basic); ok && bt.Kind() == types.Bool {
+					ex, ey := eval(bo.X), eval(bo.Y)
+					if k, ok := bo.Y.(*ssa.Const); ok && k.Value != nil && k.Value.Kind() == constant.Bool {
+						ey = 2
+						if constant.BoolVal(k.Value) {
+							ey = 1
+						}
+					}
+					if ex != 0 && ey != 0 {
+						if (ex == ey) == (bo.Op == token.EQL) {
+							return 1
+						}
+						return 2
+					}
+					return 0
+				}
+			}
+			x := core.Strip(bo.X)
+			for {
+				cv, ok := x.(*ssa.Convert)
+				if !ok {
+					break
+				}
+				x = core.Strip(cv.X)
+			}
+			switch y := bo.Y.(type) {
+			case *ssa.Const:
+				if y.Value == nil {
+					return 0
+				}
+				// len(token) <op> k
+				if c, ok := x.(*ssa.Call); ok && core.CalleeName(c) == "builtin:len" && tok[c.Call.Args[0]] {
+					if k, ok := core.ConstInt(y); ok {
+						return cmpInt(int64(len(text)), bo.Op, k)
+					}
+				}
+				// token[0] <op> k
+				if ix, ok := x.(*ssa.Index); ok && tok[ix.X] {
+					if i, ok := core.ConstInt(ix.Index); ok && int(i) < len(text) {
+						if k, ok := core.ConstInt(y); ok {
+							return cmpInt(int64(text[i]), bo.Op, k)
+						}
+					}
+				}
+				// token == "literal"
+				if tok[x] && y.Value.Kind() == constant.String && (bo.Op == token.EQL || bo.Op == token.NEQ) {
+					eq := constant.StringVal(y.Value) == text
+					if eq == (bo.Op == token.EQL) {
+						return 1
+					}
+					return 2
+				}
+			}
+			return 0
+		}
+		return eval
+	}
+	for _, sc := range []struct{ text, what string }{{"*", "anonymous-placeholder"}, {"a", "one-letter-literal"}} {
+		fl := &core.Flow{Fn: fn, Entry: core.StateSet(0).Add(0), Tags: true, EvalBool: scenario(sc.text),
+			Inline: func(cal *ssa.Function) bool { return unit[cal] && cal != fn }}
+		res := fl.Run()
+		bad := ""
+		for f2 := range unit {
+			for _, b := range f2.Blocks {
+				for _, in := range b.Instrs {
+					if pn, ok := in.(*ssa.Panic); ok && !res.Before[pn].Empty() {
+						if bad == "" || p.InstrPos(pn) < bad {
+							bad = p.InstrPos(pn)
+						}
+					}
+				}
+			}
+		}
+		r.Check(bad == "", "R10", core.FuncName(fn), "accepts-token:"+sc.what, p.Pos(fn.Pos()), "no panic is reachable in the trie insertion when the token is \""+sc.text+"\"", "registration panics (at "+bad+") for a pattern token \""+sc.text+"\": a pattern the documentation calls valid and Pattern.IsValid accepts (\"user."+sc.text+"\") cannot be registered")
 	}
 }
